@@ -83,6 +83,20 @@ CHECKS = {
     text="Covers every allocation site (18 in 10 functions) and every path from it, which is the statement 'for every position k at which the k-th allocation fails' without enumerating fault positions: a block that may be NULL must not be dereferenced or passed to a dereferencing routine, and a block that may be non-NULL must not be owned at a return. The clause 'dest cleared as for any other violation' on the failure exit is C04's.",
     design_ref="DESIGN.md §3.3, §4 C20",
     note=TB + "; allocator contract (NULL on failure, realloc keeps the old block on failure); a callee receiving a block is assumed to dereference it; 27 triaged known findings (12 unchecked allocations, leaks on wcsnorm ESNOSPC exits and the %ls failure path)"),
+ "C01": dict(
+    engine="capcheck",
+    technique="relational abstract interpretation of the cursor/budget idiom: linear loop equalities (null space of header-phi increments), lock-step and range candidates proved by induction (Houdini), dominating branch guards, Fourier-Motzkin entailment of 0 <= off and off + size <= declared capacity for every write",
+    category="other",
+    text="For every size relation and content at once: each store, memset/memcpy/memmove, libc writer and clearing/moving helper call in all 243 function definitions carries the obligation that the written range lies inside the buffer's declared capacity (caller's dmax under the truthfulness premise, local arrays, globals). 497 of 633 obligations are discharged; undischarged ones are known findings (40, genuine), listed reach limits (96 obligations in functions the domain cannot treat: unrolled primitives, smoothsort, Unicode tables, second-pass scans) or violations. Both object-size branches are in the IR and covered.",
+    design_ref="DESIGN.md §3.2, §4 C01",
+    note=TB + "; truthfulness premise; unsigned wrap-around ignored; functions in tables/cap_reach.json are not analysed and not claimed; the no-slack configuration is not yet run for C01"),
+ "C02": dict(
+    engine="capcheck",
+    technique="same relational abstract interpretation as C01 applied to every load and reading effect; facts must hold at the evaluation of the access (deref-before-counter loops fail); NUL-bounded libc readers on length-declared buffers are undischargeable by construction",
+    category="other",
+    text="Each load, memcpy source, libc reader and helper call carries the obligation that the read range lies inside the declared extent (dmax of dest, slen/n/len of a length-declared source, local arrays, constant tables), including lower bounds for backward scans. 299 of 441 obligations are discharged; 22 known findings; 120 obligations in listed reach-limited functions are not claimed. Sources without a declared length produce no obligations (that they are read only up to their terminator is not decided).",
+    design_ref="DESIGN.md §3.2, §4 C02",
+    note=TB + "; truthfulness premise; functions in tables/cap_reach.json are not analysed and not claimed; two fix: commits in /repo repaired 31 deref-before-counter loops"),
 }
 
 NOT_APPLICABLE = {
